@@ -71,6 +71,10 @@ type Sched struct {
 	ch *Choices
 
 	untilPreempt int64
+	frozen       map[*G]int // goroutines kept off the CPU for a number of driver picks (starvation mode)
+	FreezeOneIn  int        // 0 = off; else a preempted goroutine is frozen with probability 1/FreezeOneIn
+	FreezeMax    int        // maximum number of driver picks a goroutine stays frozen
+	Freezes      uint64
 	PreemptMean  int // mean number of yields between preemptions; 0 = never preempt
 
 	Steps       uint64
@@ -283,6 +287,27 @@ func Yield() {
 	}
 	s.untilPreempt = s.drawGap()
 	s.Preemptions++
+	if s.FreezeOneIn > 0 && s.ch.Choose(s.FreezeOneIn, "freeze") == 1 {
+		// starvation: this goroutine stays off the CPU for a drawn number of
+		// driver decisions while others run (a long descheduling)
+		n := 1 + s.ch.Choose(s.FreezeMax, "freezelen")
+		d := time.Duration(1+s.ch.Choose(2000, "freezems")) * time.Millisecond
+		s.mu.Lock()
+		if s.frozen == nil {
+			s.frozen = map[*G]int{}
+		}
+		s.frozen[g] = n
+		s.mu.Unlock()
+		// the freeze also ends after d of simulated time (a frozen goroutine
+		// does not keep the clock from advancing)
+		time.AfterFunc(d, func() {
+			s.mu.Lock()
+			delete(s.frozen, g)
+			s.mu.Unlock()
+			s.kickDriver()
+		})
+		s.Freezes++
+	}
 	s.makeRunnable(g)
 	g.parkSelf()
 }
@@ -440,6 +465,8 @@ type Config struct {
 	KeepLog     int // number of head/tail lines to keep
 	RandSeed    uint64
 	OnQuiesce   func()
+	FreezeOneIn int
+	FreezeMax   int
 }
 
 // Run executes body as the root simulated goroutine inside a synctest bubble
@@ -455,6 +482,8 @@ func Run(cfg Config, runBubble func(func()), body func()) (res Result) {
 		Strict:      cfg.Strict,
 		log:         newEventLog(cfg.KeepLog),
 		randSeed:    cfg.RandSeed,
+		FreezeOneIn: cfg.FreezeOneIn,
+		FreezeMax:   cfg.FreezeMax,
 		OnQuiesce:   cfg.OnQuiesce,
 	}
 	if s.ch == nil {
@@ -519,11 +548,42 @@ func (s *Sched) drive(done func() bool) {
 			continue
 		}
 		sort.Slice(s.runnable, func(i, j int) bool { return s.runnable[i].id < s.runnable[j].id })
-		k := 0
-		if n > 1 {
-			k = s.pick(n)
+		// frozen goroutines are passed over while anything else can run
+		cand := s.runnable
+		if len(s.frozen) > 0 {
+			var free []*G
+			for _, x := range s.runnable {
+				if s.frozen[x] > 0 {
+					s.frozen[x]--
+					if s.frozen[x] == 0 {
+						delete(s.frozen, x)
+					}
+				} else {
+					free = append(free, x)
+				}
+			}
+			if len(free) == 0 && len(s.frozen) > 0 {
+				// only frozen goroutines could run: let simulated time pass
+				// (their expiry timers, or any other timer, kick the driver)
+				s.mu.Unlock()
+				<-s.kick
+				continue
+			}
+			if len(free) > 0 {
+				cand = free
+			}
 		}
-		g := s.runnable[k]
+		k := 0
+		if len(cand) > 1 {
+			k = s.pick(len(cand))
+		}
+		g := cand[k]
+		for i, x := range s.runnable {
+			if x == g {
+				k = i
+				break
+			}
+		}
 		s.runnable = append(s.runnable[:k], s.runnable[k+1:]...)
 		g.state = stRunning
 		if g != s.cur {
